@@ -572,7 +572,7 @@ func Main() {
 			concMs += rc.ConcMs
 			soloMs += rc.SoloMs
 			loadMs += rc.LoadMs
-			run.Eval(rc.N)
+			run.Eval(int(rc.Ops))
 			run.Cover(fmt.Sprintf("goroutines=%d", rc.N))
 			run.Cover(fmt.Sprintf("gomaxprocs=%d", rc.Procs))
 			run.Cover(fmt.Sprintf("goroutines=%d,gomaxprocs=%d", rc.N, rc.Procs))
@@ -682,7 +682,7 @@ func Main() {
 func level() vrun.Level {
 	return vrun.Level{
 		Level: "exploration",
-		Rule: "evaluations = goroutine programs executed in the race pass (each " + strconv.Itoa(opsPerProgram) + " operations, each compared with the same program run alone afterwards in the same process; in 64-goroutine rounds 16 distinct programs are each run by 4 goroutines). " +
+		Rule: "evaluations = operations executed by the goroutine programs of the race pass (programs of " + strconv.Itoa(opsPerProgram) + " operations, each compared with the same program run alone afterwards in the same process; in 64-goroutine rounds 16 distinct programs are each run by 4 goroutines). " +
 			"A child process that observes no race writes no race log file, so race_log_files_read=0 is the normal outcome; coverage.selftest shows that a deliberate harness race did reach a log file and the parser. " +
 			"distinct_nontrivial = distinct (operation kind A, operation kind B, font kind slot) triples observed simultaneously active on the same shared font by the atomic active-operation table of the second pass; floor " + strconv.Itoa(pairFloor) + ". " +
 			"It is forced to 0 (run inconclusive) when coverage.inconclusive_reason is present: harness-only race report, race detector self-test failure, child death, watchdog.",
